@@ -12,7 +12,6 @@ import (
 	"crypto/sha256"
 	"crypto/x509"
 	"encoding/json"
-	"errors"
 	"fmt"
 	"io/fs"
 	"os"
@@ -49,13 +48,14 @@ type Node struct {
 }
 
 type Input struct {
-	Op        string `json:"op"` // get | uninstall | install | verify | list
-	Root      string `json:"root"`
-	Name      string `json:"name"`
-	Src       string `json:"src"`
-	Overwrite bool   `json:"overwrite"`
-	Trusted   bool   `json:"trusted"`
-	FS        []Node `json:"fs"`
+	Op        string   `json:"op"` // get | uninstall | install | verify | list
+	Root      string   `json:"root"`
+	Name      string   `json:"name"`
+	Src       string   `json:"src"`
+	Overwrite bool     `json:"overwrite"`
+	Trusted   bool     `json:"trusted"`
+	History   []string `json:"history"` // earlier steps on the same manager: install | uninstall | get | touchSrc | dropSrc
+	FS        []Node   `json:"fs"`
 }
 
 type Obs struct {
@@ -290,16 +290,29 @@ type entry struct {
 	bits  string // "x" owner may execute, "g" some group / other execute bit
 }
 
-func snapshot(caseDir string) (map[string]entry, error) {
+// abstract names a real path: below the abstract root "/" as is, elsewhere in the sandbox with a
+// leading "^", outside the sandbox (never seen so far) with "^^".
+func abstract(sandbox, caseDir, p string) string {
+	switch {
+	case p == caseDir:
+		return "/"
+	case strings.HasPrefix(p, caseDir+"/"):
+		return strings.TrimPrefix(p, caseDir)
+	case p == sandbox:
+		return "^/"
+	case strings.HasPrefix(p, sandbox+"/"):
+		return "^" + strings.TrimPrefix(p, sandbox)
+	}
+	return "^^" + p
+}
+
+func snapshot(sandbox, caseDir string) (map[string]entry, error) {
 	m := map[string]entry{}
-	err := filepath.WalkDir(caseDir, func(p string, d fs.DirEntry, err error) error {
+	err := filepath.WalkDir(sandbox, func(p string, d fs.DirEntry, err error) error {
 		if err != nil {
 			return err
 		}
-		rel := strings.TrimPrefix(p, caseDir)
-		if rel == "" {
-			rel = "/"
-		}
+		rel := abstract(sandbox, caseDir, p)
 		t := d.Type()
 		switch {
 		case t.IsDir():
@@ -332,13 +345,26 @@ func snapshot(caseDir string) (map[string]entry, error) {
 	return m, err
 }
 
-// safe: whatever an unguarded join would produce stays strictly inside the case directory
-// (so that a mutant of the code under test can never reach outside the scratch area).
-func safe(caseDir, root, name string) bool {
-	realRoot := caseDir + root
-	in := func(p string) bool { return strings.HasPrefix(p, caseDir+"/") }
-	return in(filepath.Join(realRoot, name)) && in(filepath.Join(realRoot, path.Join(name, "notation-"+name))) &&
-		in(filepath.Clean(realRoot))
+// The abstract root "/" is not the top of a case's sandbox: it lies jailDepth directories below it
+// (<work>/c<k>/j1/j2/j3/j4/j5), and the whole sandbox is snapshotted. Whatever a mutant of the code
+// under test resolves a name to - also after re-interpreting back slashes, percent escapes or
+// full-width dots as path syntax - up to jailDepth levels above "/" is still inside the sandbox and
+// shows up as an observation ("^/j1/.." paths); it can never reach the scratch area of other cases.
+const jailDepth = 5
+
+var jail = "/j1/j2/j3/j4/j5"
+
+// climbs bounds the number of directory levels any reading of the name can go up.
+func climbs(name string) int {
+	l := strings.ToLower(name)
+	return strings.Count(name, "..") + strings.Count(l, "%2e%2e") + strings.Count(l, "%2e.") + strings.Count(l, ".%2e") +
+		strings.Count(name, "\uff0e\uff0e") + strings.Count(name, "\u2024\u2024")
+}
+
+// safe: no reading of the name leaves the sandbox (it stays at least one level below its top).
+func safe(root, name string) bool {
+	depth := len(strings.Split(strings.Trim(path.Clean(root), "/"), "/"))
+	return climbs(name) < depth+jailDepth-1
 }
 
 // runCase queues a case; tags are distribution counters of the generator.
@@ -346,9 +372,12 @@ func (e *env) runCase(in Input, tags ...string) error {
 	if !utf8.ValidString(in.Name) || !utf8.ValidString(in.Root) {
 		return fmt.Errorf("generator produced invalid UTF-8")
 	}
-	if !safe("/CASE", in.Root, effectiveName(in)) {
-		e.c.Count("skipped=would-leave-case-directory")
+	if !safe(in.Root, effectiveName(in)) {
+		e.c.Count("skipped=would-leave-the-sandbox")
 		return nil
+	}
+	if in.History == nil {
+		in.History = []string{}
 	}
 	// end-to-end cases alternate between a trusted and an untrusted signer: the name reaches the
 	// plugin manager before authenticity is evaluated
@@ -408,12 +437,19 @@ func (e *env) execAll() error {
 		}
 		parallel(lo, hi, func(k int) { e.jobs[k].err = e.prepare(k, e.jobs[k]) })
 		parallel(lo, hi, func(k int) {
-			if e.jobs[k].err == nil {
+			if e.jobs[k].err == nil && len(e.jobs[k].in.History) == 0 {
 				e.jobs[k].obs, e.jobs[k].err = e.execCase(k, e.jobs[k])
 			}
 		})
+		// histories install an executable and run it later in the same case: one at a time, so that no
+		// other goroutine forks while the copy is open for writing (ETXTBSY, see above)
+		for k := lo; k < hi; k++ {
+			if e.jobs[k].err == nil && len(e.jobs[k].in.History) > 0 {
+				e.jobs[k].obs, e.jobs[k].err = e.execCase(k, e.jobs[k])
+			}
+		}
 		parallel(lo, hi, func(k int) {
-			os.RemoveAll(e.caseDir(k))
+			os.RemoveAll(e.sandbox(k))
 			os.Remove(e.marker(k))
 			e.jobs[k].before = nil
 		})
@@ -453,58 +489,129 @@ func (e *env) execAll() error {
 	return nil
 }
 
-func (e *env) caseDir(k int) string { return filepath.Join(e.work, fmt.Sprintf("c%d", k)) }
+func (e *env) sandbox(k int) string { return filepath.Join(e.work, fmt.Sprintf("c%d", k)) }
+func (e *env) caseDir(k int) string { return e.sandbox(k) + jail }
 func (e *env) marker(k int) string  { return filepath.Join(e.work, fmt.Sprintf("m%d.log", k)) }
 
 // prepare builds the world of a case and snapshots it.
 func (e *env) prepare(k int, j *job) error {
 	caseDir := e.caseDir(k)
-	if !safe(caseDir, j.in.Root, effectiveName(j.in)) {
+	if !safe(j.in.Root, effectiveName(j.in)) {
 		return fmt.Errorf("unsafe case reached execution: %q %q", j.in.Root, j.in.Name)
 	}
-	if err := os.Mkdir(caseDir, 0o755); err != nil {
+	if err := os.MkdirAll(caseDir, 0o755); err != nil {
 		return err
 	}
 	if err := e.build(caseDir, e.marker(k), j.in); err != nil {
 		return fmt.Errorf("%w (input %+v)", err, j.in)
 	}
+	if len(j.in.History) > 0 {
+		return nil // the reference snapshot is taken after the history
+	}
 	var err error
-	j.before, err = snapshot(caseDir)
+	j.before, err = snapshot(e.sandbox(k), caseDir)
 	return err
 }
 
-// execCase runs the operation on the real code and returns the observation.
-func (e *env) execCase(k int, j *job) (Obs, error) {
+// srcExe: the executable of the install source (file route: the source itself).
+func srcExe(caseDir string, in Input) string {
+	for _, n := range in.FS {
+		if n.Path == in.Src && n.Kind == "dir" {
+			return caseDir + in.Src + "/notation-" + in.Name
+		}
+	}
+	return caseDir + in.Src
+}
+
+// execCase runs the history and the observed operation on ONE manager object and returns the
+// observation of the observed operation. Whatever the code under test does becomes an
+// observation - a panic, a nil plugin without an error, a sandbox it tore down - never a harness
+// error: a mutant must not be able to stop the run.
+func (e *env) execCase(k int, j *job) (o Obs, herr error) {
 	in, before := j.in, j.before
-	o := Obs{Executed: []string{}, Changed: []string{}, Listed: []string{}, Chmod: []string{}}
-	caseDir, marker := e.caseDir(k), e.marker(k)
+	o = Obs{Executed: []string{}, Changed: []string{}, Listed: []string{}, Chmod: []string{}}
+	sandbox, caseDir, marker := e.sandbox(k), e.caseDir(k), e.marker(k)
 	ctx, cancel := context.WithTimeout(context.Background(), 30*time.Second)
 	defer cancel()
 	mgr := plugin.NewCLIManager(dir.NewSysFS(caseDir + in.Root))
+	src := in.Src
+	if src != "" {
+		src = caseDir + src
+	}
+	odd := []string{} // what cannot be expressed otherwise, reported among the executed paths
+	call := func(what string, f func()) {
+		defer func() {
+			if r := recover(); r != nil {
+				odd = append(odd, "!panic in "+what)
+				o.Err = true
+			}
+		}()
+		f()
+	}
+	get := func(observed bool) {
+		call("Get", func() {
+			p, err := mgr.Get(ctx, in.Name)
+			if observed {
+				o.Err = err != nil
+			}
+			if err == nil {
+				if p == nil {
+					odd = append(odd, "!Get returned neither a plugin nor an error")
+					return
+				}
+				p.GetMetadata(ctx, &pluginframework.GetMetadataRequest{})
+			}
+		})
+	}
+	for _, st := range in.History {
+		switch st {
+		case "install":
+			call("Install", func() { mgr.Install(ctx, plugin.CLIInstallOptions{PluginPath: src, Overwrite: in.Overwrite}) })
+		case "uninstall":
+			call("Uninstall", func() { mgr.Uninstall(ctx, in.Name) })
+		case "get":
+			get(false)
+		case "touchSrc":
+			x := srcExe(caseDir, in)
+			os.Remove(x)
+			if err := os.WriteFile(x, script(marker, in.Name, 66), 0o755); err != nil {
+				return o, fmt.Errorf("touchSrc: %w", err)
+			}
+		case "dropSrc":
+			os.Remove(srcExe(caseDir, in))
+		default:
+			return o, fmt.Errorf("unknown step %q", st)
+		}
+	}
+	markerOffset := 0
+	if len(in.History) > 0 {
+		odd = odd[:0]
+		if b, err := os.ReadFile(marker); err == nil {
+			markerOffset = len(b)
+		}
+		var err error
+		if before, err = snapshot(sandbox, caseDir); err != nil {
+			before = map[string]entry{}
+			odd = append(odd, "!the sandbox cannot be read after the history")
+		}
+	}
 	switch in.Op {
 	case "get":
-		p, err := mgr.Get(ctx, in.Name)
-		o.Err = err != nil
-		if err == nil {
-			if p == nil {
-				return o, errors.New("Get returned neither plugin nor error")
-			}
-			p.GetMetadata(ctx, &pluginframework.GetMetadataRequest{})
-		}
+		get(true)
 	case "uninstall":
-		o.Err = mgr.Uninstall(ctx, in.Name) != nil
+		call("Uninstall", func() { o.Err = mgr.Uninstall(ctx, in.Name) != nil })
 	case "install":
-		src := in.Src
-		if src != "" {
-			src = caseDir + src
-		}
-		_, _, err := mgr.Install(ctx, plugin.CLIInstallOptions{PluginPath: src, Overwrite: in.Overwrite})
-		o.Err = err != nil
+		call("Install", func() {
+			_, _, err := mgr.Install(ctx, plugin.CLIInstallOptions{PluginPath: src, Overwrite: in.Overwrite})
+			o.Err = err != nil
+		})
 	case "list":
-		names, err := mgr.List(ctx)
-		o.Err = err != nil
-		o.Listed = append(o.Listed, names...)
-		sort.Strings(o.Listed)
+		call("List", func() {
+			names, err := mgr.List(ctx)
+			o.Err = err != nil
+			o.Listed = append(o.Listed, names...)
+			sort.Strings(o.Listed)
+		})
 	case "verify":
 		sig, err := common.SignEnvelope(common.EnvOpts{Chain: e.chain, Target: &e.desc,
 			ExtAttrs: []signature.Attribute{{Key: "io.cncf.notary.verificationPlugin", Critical: true, Value: in.Name}}})
@@ -520,15 +627,19 @@ func (e *env) execCase(k int, j *job) (Obs, error) {
 		if err != nil {
 			return o, err
 		}
-		_, err = v.Verify(ctx, e.desc, sig, notation.VerifierVerifyOptions{
-			ArtifactReference: "reg.example/repo@" + e.desc.Digest.String(), SignatureMediaType: common.MediaJWS})
-		o.Err = err != nil
+		call("Verify", func() {
+			_, err = v.Verify(ctx, e.desc, sig, notation.VerifierVerifyOptions{
+				ArtifactReference: "reg.example/repo@" + e.desc.Digest.String(), SignatureMediaType: common.MediaJWS})
+			o.Err = err != nil
+		})
 	default:
 		return o, fmt.Errorf("unknown op %q", in.Op)
 	}
-	after, err := snapshot(caseDir)
+	after, err := snapshot(sandbox, caseDir)
 	if err != nil {
-		return o, err
+		// the code under test tore the sandbox down (or made it unreadable): that is the observation
+		after = map[string]entry{}
+		odd = append(odd, "!the sandbox cannot be read afterwards")
 	}
 	for p, s := range before {
 		if a, ok := after[p]; !ok || a.state != s.state {
@@ -544,20 +655,23 @@ func (e *env) execCase(k int, j *job) (Obs, error) {
 		}
 	}
 	sort.Strings(o.Changed)
-	if b, err := os.ReadFile(marker); err == nil {
-		seen := map[string]bool{}
-		for _, l := range strings.Split(strings.TrimSuffix(string(b), "\n"), "\n") {
-			a := "outside-case-directory:" + l
-			if strings.HasPrefix(l, caseDir+"/") {
-				a = strings.TrimPrefix(l, caseDir)
-			}
+	seen := map[string]bool{}
+	if b, err := os.ReadFile(marker); err == nil && len(b) > markerOffset {
+		for _, l := range strings.Split(strings.TrimSuffix(string(b[markerOffset:]), "\n"), "\n") {
+			a := abstract(sandbox, caseDir, l)
 			if !seen[a] {
 				seen[a] = true
 				o.Executed = append(o.Executed, a)
 			}
 		}
-		sort.Strings(o.Executed)
 	}
+	for _, a := range odd {
+		if !seen[a] {
+			seen[a] = true
+			o.Executed = append(o.Executed, a)
+		}
+	}
+	sort.Strings(o.Executed)
 	return o, nil
 }
 
@@ -603,7 +717,24 @@ var roots = []string{"/p", "/a/p", "/a/b/p", "/a/b/c/d/p", "/a/b/p/", "/a//b/./p
 
 // presence variants of <root>/<name> for an acceptable, creatable name
 var variants = []string{"absent", "plugin", "dirOnly", "exeIsDir", "exeIsData", "nameIsFile", "nameIsSymdir", "exeIsSymfile", "nested",
-	"exeIsSymexec", "exeIsSymnone", "exeIsSymdir", "nameIsSymnone", "leftoverLinks", "pluginWithLinks"}
+	"exeIsSymexec", "exeIsSymnone", "exeIsSymdir", "nameIsSymnone", "leftoverLinks", "pluginWithLinks", "pluginWithSiblings", "siblingsOnly"}
+
+// derived: names a careless implementation may derive from the target's name for temporary, backup
+// or staging purposes - each of them is a perfectly good plugin name of ANOTHER plugin
+func derived(name string) []string {
+	return []string{name + ".removing", name + ".tmp", name + ".old", name + ".bak", name + ".new", name + ".lock", name + ".partial",
+		name + "~", "." + name, "." + name + ".swp", name + "-1", name + "-old", name + "_", name + ".1.0.0", "tmp-" + name, name + ".d"}
+}
+
+func siblings(w *world, rc, name string) {
+	for _, d := range derived(name) {
+		if len("notation-"+d) > 255 {
+			continue
+		}
+		w.put(path.Join(rc, d, "notation-"+d), "exec", 4)
+		w.put(path.Join(rc, d, "LICENSE"), "file", 4)
+	}
+}
 
 func applyVariant(w *world, rc, name, variant string, ver int) {
 	d := path.Join(rc, name)
@@ -643,6 +774,12 @@ func applyVariant(w *world, rc, name, variant string, ver int) {
 		w.put(path.Join(d, "LICENSE"), "symnone", 0)
 		w.put(path.Join(d, "libfoo.so"), "symfile", 0)
 		w.put(path.Join(d, "notation-nonexec"), "symnone", 0)
+	case "pluginWithSiblings": // a working plugin surrounded by other plugins whose names derive from its name
+		w.put(x, "exec", ver)
+		w.put(path.Join(d, "LICENSE"), "file", 2)
+		siblings(w, rc, name)
+	case "siblingsOnly": // the same neighbourhood, the plugin itself not installed
+		siblings(w, rc, name)
 	case "pluginWithLinks": // a working plugin next to links named like the package's other files
 		w.put(x, "exec", ver)
 		w.put(path.Join(d, "LICENSE"), "symfile", 0)
@@ -693,7 +830,7 @@ func (e *env) installCases(names []string, rootSet []string, full bool) error {
 	existing := []struct {
 		variant string
 		ver     int
-	}{{"absent", 0}, {"plugin", 1}, {"plugin", 2}, {"plugin", 3}, {"dirOnly", 0}, {"exeIsDir", 0}, {"exeIsData", 0}, {"nested", 1}, {"nameIsFile", 0},
+	}{{"absent", 0}, {"plugin", 1}, {"plugin", 2}, {"plugin", 3}, {"pluginWithSiblings", 1}, {"siblingsOnly", 0}, {"dirOnly", 0}, {"exeIsDir", 0}, {"exeIsData", 0}, {"nested", 1}, {"nameIsFile", 0},
 		// the plugin directory was left over by an earlier, broken or hand-made installation
 		{"exeIsSymnone", 0}, {"exeIsSymfile", 0}, {"exeIsSymdir", 0}, {"exeIsSymexec", 1}, {"exeIsSymexec", 3},
 		{"leftoverLinks", 0}, {"linksNoExe", 0}, {"pluginWithLinks", 1}, {"pluginWithLinks", 3}, {"nameIsSymdir", 0}, {"nameIsSymnone", 0}}
@@ -713,7 +850,7 @@ func (e *env) installCases(names []string, rootSet []string, full bool) error {
 				}
 				for _, overwrite := range []bool{false, true} {
 					for _, route := range []string{"file", "dir", "dir-extra", "dir-nonexec"} {
-						if route == "dir-nonexec" && xi > 1 {
+						if route == "dir-nonexec" && xi > 1 && xi != 4 {
 							continue
 						}
 						w := baseWorld(root, name)
@@ -798,6 +935,62 @@ func (e *env) installOddSources(root string) error {
 	return nil
 }
 
+// historyCases: several calls on ONE manager object; observed is the last one. The executable that
+// runs for <name> must always be <root>/<name>/notation-<name> as it is on disk at that moment -
+// never the file the plugin was installed from - and a plugin that was uninstalled must be gone.
+func (e *env) historyCases(names []string, rootSet []string, full bool) error {
+	histories := [][]string{
+		{"install"}, {"install", "touchSrc"}, {"install", "dropSrc"}, {"install", "uninstall"},
+		{"get", "install"}, {"get", "install", "touchSrc"}, {"install", "get"}, {"install", "get", "uninstall"},
+		{"install", "get", "touchSrc"}, {"get", "uninstall"}, {"uninstall"}, {"uninstall", "install"},
+		{"install", "touchSrc", "install"}, {"install", "uninstall", "install", "dropSrc"}, {"get"}, {"get", "get", "install", "get", "touchSrc"},
+	}
+	observed := []string{"get", "verify", "uninstall", "install", "list"}
+	for ni, name := range names {
+		if !fsLegal("notation-"+name) || name == "good" {
+			continue
+		}
+		for ri, root := range rootSet {
+			rc := path.Clean(root)
+			for hi, h := range histories {
+				for oi, op := range observed {
+					if !full && (ni+ri+hi+oi)%2 == 1 && op != "get" {
+						continue
+					}
+					for _, present := range []string{"absent", "plugin", "pluginWithSiblings"} {
+						if !full && present == "pluginWithSiblings" && op != "uninstall" && op != "install" {
+							continue
+						}
+						for _, route := range []string{"file", "dir"} {
+							if route == "dir" && (hi+oi)%3 != 0 {
+								continue
+							}
+							w := baseWorld(root, name)
+							if validName(name) {
+								applyVariant(w, rc, name, present, 1)
+							}
+							var src string
+							if route == "file" {
+								src = "/dl/notation-" + name
+								w.put(src, "exec", 2)
+							} else {
+								src = "/dl/unpacked"
+								w.put(src+"/notation-"+name, "exec", 2)
+								w.put(src+"/LICENSE", "file", 2)
+							}
+							in := Input{Op: op, Root: root, Name: name, Src: src, Overwrite: (hi+oi)%2 == 0, FS: w.list(), History: h}
+							if err := e.runCase(in, "history="+strings.Join(h, ">")+">["+op+"]"); err != nil {
+								return err
+							}
+						}
+					}
+				}
+			}
+		}
+	}
+	return nil
+}
+
 func (e *env) listCases() error {
 	entries := [][]spec{
 		{},
@@ -870,14 +1063,14 @@ func Run(c *common.Ctx) error {
 	hostile, acceptable := hostileNames(), acceptableNames()
 	lookupOps := []string{"get", "uninstall", "verify"}
 	// 1. every hostile name through lookup, uninstall and end-to-end verification: against every root
-	// (thorough), or against the four clean depths and one of the unclean spellings in turn (quick)
+	// (thorough), or against three clean depths and one of the other spellings in turn (quick)
 	if c.Thorough() {
 		if err := e.lookupCases(hostile, roots, lookupOps); err != nil {
 			return err
 		}
 	} else {
 		for k, name := range hostile {
-			rs := append(append([]string{}, roots[:4]...), roots[4+k%4])
+			rs := []string{roots[0], roots[2], roots[3], []string{roots[1], roots[4], roots[5], roots[6], roots[7]}[k%5]}
 			if err := e.lookupCases([]string{name}, rs, lookupOps); err != nil {
 				return err
 			}
@@ -887,8 +1080,16 @@ func Run(c *common.Ctx) error {
 	if err := e.lookupCases(acceptable, []string{"/p", "/a/b/p", "/a//b/./p"}, lookupOps); err != nil {
 		return err
 	}
-	if err := e.variantCases(acceptable, []string{"/a/p", "/a/b/p/"}); err != nil {
-		return err
+	if c.Thorough() {
+		if err := e.variantCases(acceptable, []string{"/a/p", "/a/b/p/"}); err != nil {
+			return err
+		}
+	} else {
+		for k, name := range acceptable {
+			if err := e.variantCases([]string{name}, []string{[]string{"/a/p", "/a/b/p/"}[k%2]}); err != nil {
+				return err
+			}
+		}
 	}
 	// 3. install: names a file system can carry after "notation-" (this is how ".", ".." and "a\b" arrive)
 	installNames := []string{".", "..", "...", "a\\b", "..\\victim", "..\\..", "my.plugin", "good", "a", " ", "a b", "pl\u00fcgin", "-", "..a", "victim",
@@ -905,10 +1106,18 @@ func Run(c *common.Ctx) error {
 	if err := e.listCases(); err != nil {
 		return err
 	}
-	// 5. random names from the grammar
-	nRandom := 1500
+	// 4b. histories on one manager object
+	histNames := []string{"my.plugin", ".."}
 	if c.Thorough() {
-		nRandom = 25000
+		histNames = append(histNames, "a b", "a\\b")
+	}
+	if err := e.historyCases(histNames, []string{"/a/p", "/a/b/p/"}, c.Thorough()); err != nil {
+		return err
+	}
+	// 5. random names from the grammar
+	nRandom := 1200
+	if c.Thorough() {
+		nRandom = 18000
 	}
 	ops := []string{"get", "uninstall", "verify", "get", "uninstall"}
 	for k := 0; k < nRandom; k++ {
